@@ -10,7 +10,7 @@ TRUSTED_BASE = [
 
 PROPS = {}
 NOT_YET = {}
-HOOK_COMMITS = []
+HOOK_COMMITS = ["1460123bcc5a44e72392e65465c5bd0c424ce6e9"]  # PrefixFileSet::verif_snapshot behind --cfg servlin_verif (src/log/prefix_file_set.rs, Cargo.toml check-cfg)
 
 PROPS["C14"] = dict(
     suites=["c14", "c14r"],
@@ -33,6 +33,41 @@ PROPS["C14"] = dict(
                "small-scope + random differential suite run on every check.",
     level_note="Trusted: Lean kernel; the hand-written model (src/headers.rs, src/ascii_string.rs are modelled, not verified); the "
                "correspondence suite c14 (exhaustive <=4/5 fields x <=2/3 ops + random) and its harness; Rust Vec/String semantics.",
+)
+
+PROPS["C19"] = dict(
+    suites=["c19"],
+    shards={"c19": 8},
+    lean_modules=["ServlinVerif.Props.C19"],
+    audit="Audit/C19.lean",
+    rule="set level: 800 (8000) random op sequences (1..8 ops over push / delete_oldest / delete_older_than / delete_oldest_while_over_max_len) "
+         "on a real PrefixFileSet over a scratch directory with 0..4 pre-existing prefix files of 0..500 bytes, synthetic strictly increasing "
+         "mtimes (File::set_modified), an unrelated file that must survive; after every op the running total (hook verif_snapshot) and the "
+         "directory listing are compared with the model. Writer level: 24 (150) runs of the real writer thread in a scratch directory: "
+         "max_write_bytes in {64 KiB, 128 KiB} (thorough also 1 MiB), max_keep_bytes in {1x, 2x, 3.5x, 10x, and 0.25x: writer must keep running}, keep-age off / 60 s, 0..5 files of earlier runs "
+         "(100 B..90 KB, ages 10..30 s or ~2 h), 100..700 (thorough: every 10th run 4000, every 50th 20000) events of 50 B..60 KiB, 0..3 restarts of the writer "
+         "at random points; surviving files, their line numbers and sizes are compared with the model run on the same event sizes; "
+         "directory total sampled every 16 events. Non-trivial = at least one file deleted or rotated.",
+    nontrivial=lambda tag, args, obs: (tag == "c19s" and re.search(r"(del|age|over)", args[1]) is not None) or (tag == "c19w" and obs.count("/") > 0),
+    klass=lambda tag, args, obs: tag + (":ops=%d" % (args[1].count(";") + 1) if tag == "c19s" else ":restarts=%d:age=%s:keepx=%s" % (args[4].count("|"), "on" if args[2] != "0" else "off", str(round(int(args[1]) / int(args[0]), 1)))),
+    explanation="Model/LogFiles.lean: PrefixFileSet (files + running total; peek = first file with the smallest mtime) and the writer loop "
+                "(rotation decision, delete by age, delete oldest while over keep - current - event with saturating subtraction, append). "
+                "Theorems (all histories, all configurations): the two deletion loops never panic from consistent books and equal the "
+                "specifications trimTo / dropWhile (suffix, within budget, nothing more than needed deleted); C19_step / C19_run: for every "
+                "event history with a non-decreasing clock the writer keeps running and the invariant holds (lines of the files in creation "
+                "order = accepted events in order; on-disk files = most-recent suffix; current file <= max_write or one event); "
+                "C19_disk_bound: total <= keep + one event when max_write <= keep; C19_start: earlier files found, counted, trimmed. "
+                "C19_legacy_*: the three defects of the pinned tree replayed on the model (decide).",
+    trusted=["the file system (create_new, write_all, remove_file, mtime), SystemTime::now monotone across events (hypothesis Monotone)",
+             "BinaryHeap pops the smallest mtime; with equal mtimes its choice is unspecified (suite uses distinct mtimes)",
+             "lines are atomic in the model; the suite checks whole lines on disk (no PARTIAL line, file bytes = sum of its lines)"],
+    assumptions=["crash points: a restart is modelled as dropping the sender after the last event was written (clean stop); a crash in the middle "
+                 "of write_all is not exercised",
+                 "max_write_age (24 h default) is modelled and proved but not exercised by the suite (would need a clock hook)"],
+    level_text="Proof: invariant by induction over all event histories and configurations (no bound); partial (runtime): the file system, "
+               "the clock and mid-write crashes are outside the model; restarts are covered by C19_start + the suite.",
+    level_note="Trusted: Lean kernel; model of src/log/prefix_file_set.rs and the loop of src/log/log_file_writer.rs (modelled, not verified) "
+               "tied by suites c19s/c19w; hook verif_snapshot exposes PrefixFileSet.len.",
 )
 
 PROPS["C20"] = dict(
